@@ -1,5 +1,7 @@
 (* C03 — the restructured graph is structured. *)
 From Coq Require Import ZArith List.
+Import ListNotations.
+From V Require Model.Edits Model.LoopEdit Model.LoopSpec Model.Conserve.
 From V Require Import Valid.Hier Valid.FlatRegion Valid.Struct Valid.Run.
 From Coq Require Import Lia.
 From V Require Import Model.Pipe Model.PipeBounded Model.PipeBounded4.
@@ -42,3 +44,34 @@ Proof.
   split; [apply B1; reflexivity|apply B2; reflexivity].
 Qed.
 Print Assumptions C03_pipeline_model_le4.
+
+(* loop rotation, for ALL graphs (no bound), over LoopEdit.loop_rotate: when every block of the loop
+   that jumps to an exit, or to a header along an arc classified as a back edge, is processed, then
+   afterwards no block of the loop jumps to an exit or back to a header directly - all those arcs end
+   in assignment blocks that continue to the single exiting latch, which alone holds the back edge *)
+Theorem C03_loop_rotation_single_latch :
+  forall g top hd headers exits todo unified header_tbl isback latch sexit ev bv names g',
+  let needs := match exits with _ :: _ :: _ => true | _ => false end in
+  V.Model.LoopEdit.loop_rotate g hd headers exits todo unified header_tbl isback latch sexit ev bv names = V.Model.Edits.Ok g' ->
+  (NoDup todo /\
+   forall p, In p todo -> exists b, V.Model.Edits.efind g p = Some b /\ V.Model.Edits.e_be b = [] /\ NoDup (V.Model.Edits.e_jt b) /\
+                                    (forall a, In a names -> ~ In a (V.Model.Edits.e_jt b)) /\
+                                    (V.Model.LoopSpec.nonbranch b \/
+                                     forall t, In t (V.Model.Edits.e_jt b) -> zmem t exits = false /\ (zmem t headers && isback p t)%bool = false)) ->
+  (NoDup names /\
+   forall a, In a names -> V.Model.Edits.efind g a = None /\ ~ In a todo /\ a <> latch /\ a <> sexit /\ a <> top) ->
+  V.Model.Edits.efind g latch = None /\ latch <> top /\ ~ In latch todo ->
+  (needs = true -> V.Model.Edits.efind g sexit = None /\ sexit <> latch /\ sexit <> top /\ ~ In sexit todo) ->
+  ~ In top (V.Model.Edits.ekeys g) ->
+  forall loop,
+  (forall x, In x exits -> In x (V.Model.Edits.ekeys g)) -> (forall x, In x headers -> In x (V.Model.Edits.ekeys g)) ->
+  (forall x b t, In x loop -> V.Model.Edits.efind g x = Some b -> In t (V.Model.Edits.e_jt b) ->
+     (In t exits \/ (In t headers /\ isback x t = true)) -> In x todo) ->
+  (forall p b, In p todo -> V.Model.Edits.efind g p = Some b -> V.Model.LoopSpec.nonbranch b) ->
+  forall x b', In x loop -> In x (V.Model.Edits.ekeys g) -> V.Model.Edits.efind g' x = Some b' ->
+    forall t', In t' (V.Model.Edits.e_jt b') -> ~ In t' exits /\ ~ (In t' headers /\ isback x t' = true).
+Proof.
+  intros g top hd headers exits todo unified header_tbl isback latch sexit ev bv names g' needs.
+  exact (V.Model.Conserve.rotate_no_direct_arcs g top hd headers exits todo unified header_tbl isback latch sexit ev bv names g').
+Qed.
+Print Assumptions C03_loop_rotation_single_latch.
